@@ -492,6 +492,9 @@ func (e *CEnv) call(n *ECall) *CV {
 	switch n.Fn {
 	case "len":
 		x := e.eval(n.Args[0])
+		if x.Sort == "Ref" {
+			ft.noteRefSource(x.T)
+		}
 		if x.Type != nil {
 			switch u := types.Unalias(x.Type).Underlying().(type) {
 			case *types.Slice:
@@ -574,6 +577,13 @@ func (e *CEnv) call(n *ECall) *CV {
 			e.fail("setfield: field %s has sort %s, got %s", fn.Val, f.Sort, v.Sort)
 		}
 		return &CV{T: ft.e.sorts.UpdField(x.Sort, x.T, fn.Val, v.T), Sort: x.Sort, Type: x.Type}
+	case "heap":
+		// heap("HS.cashu.Proof"): the current contents of a memory region
+		id, ok := n.Args[0].(*EStr)
+		if !ok {
+			e.fail("heap(\"region\")")
+		}
+		return &CV{T: e.region(id.Val), Sort: ft.regionSort(id.Val)}
 	case "local":
 		// local(name, Type): the local variable `name` of that type (when several
 		// locals share a source name)
@@ -758,6 +768,13 @@ func (ft *FT) noteRefSource(t *T) {
 		if reg := regionOf(inner); reg != "" && len(sels) > 0 {
 			ft.refSources[reg+"|"+strings.Join(sels, "|")] = true
 			return
+		}
+		// (sel ... (select (select HS.X x) i))
+		if inner.Op == "select" && len(inner.Args) == 2 && len(sels) > 0 {
+			if reg := regionOf(inner.Args[0]); reg != "" {
+				ft.refSources[reg+"|[]|"+strings.Join(sels, "|")] = true
+				return
+			}
 		}
 		// (select (select HS.Ref x) i)
 		if inner.Op == "select" && len(inner.Args) == 2 && len(sels) == 0 {
